@@ -1239,3 +1239,18 @@ def mode_mask_drops_special_bits(fn_node):
                         out.append((n, "mode-mask-0o777", f"`{A.unparse(n)}` keeps only rwx bits of a file mode: setuid, setgid and sticky (0o7000) are dropped — the permission mask "
                                     f"of a mode is 0o7777 (stat.S_IMODE)"))
     return out
+
+
+def copyfileobj_length_confusion(fn_node):
+    """``shutil.copyfileobj(src, dst, start)`` — the third argument is a *buffer size*, not a byte limit: the whole source is
+    copied whatever number is passed."""
+    out = []
+    for c in ast.walk(fn_node):
+        if isinstance(c, ast.Call) and A.unparse(c.func).split(".")[-1] == "copyfileobj":
+            third = c.args[2] if len(c.args) >= 3 else next((k.value for k in c.keywords if k.arg == "length"), None)
+            if third is not None and not isinstance(third, ast.Constant):
+                nm = A.unparse(third).lower()
+                if not any(w in nm for w in ("buf", "chunk", "block")):
+                    out.append((c, "copyfileobj-length", f"`{A.unparse(c)[:70]}` passes `{A.unparse(third)}` as third argument of copyfileobj: that parameter is the copy buffer size — "
+                                f"the entire source is copied, not the first `{A.unparse(third)}` bytes"))
+    return out
